@@ -677,25 +677,11 @@ type intrinsicPair struct {
 
 func (c *Ctx) intrinsicsByValue() []intrinsicPair {
 	var out []intrinsicPair
-	for _, f := range c.Mod["vm"].Syntax {
-		ast.Inspect(f, func(x ast.Node) bool {
-			as, ok := x.(*ast.AssignStmt)
-			if !ok || len(as.Lhs) != 1 || len(as.Rhs) != 1 {
-				return true
-			}
-			ix, ok := as.Lhs[0].(*ast.IndexExpr)
-			if !ok {
-				return true
-			}
-			if o := c.objOf(ix.X); o == nil || qual(o) != "vm.intrinsicsCallByValue" {
-				return true
-			}
-			fo, oo := c.objOf(ix.Index), c.objOf(as.Rhs[0])
-			if fo != nil && oo != nil {
-				out = append(out, intrinsicPair{fo.Name(), oo.Name(), as.Pos()})
-			}
-			return true
-		})
+	for _, te := range c.tableEntries("vm", "intrinsicsCallByValue") {
+		fo, oo := c.objOf(te.key), c.objOf(te.val)
+		if fo != nil && oo != nil {
+			out = append(out, intrinsicPair{fo.Name(), oo.Name(), te.pos})
+		}
 	}
 	sort.Slice(out, func(i, j int) bool { return out[i].fun < out[j].fun })
 	return out
@@ -948,21 +934,11 @@ func ruleSibling3(c *Ctx) {
 	// VM side
 	vmShape := map[string]string{}
 	vmPos := map[string]token.Pos{}
-	for _, f := range c.Mod["vm"].Syntax {
-		ast.Inspect(f, func(x ast.Node) bool {
-			as, ok := x.(*ast.AssignStmt)
-			if !ok || len(as.Lhs) != 1 || len(as.Rhs) != 1 {
-				return true
-			}
-			ix, ok := as.Lhs[0].(*ast.IndexExpr)
-			if !ok {
-				return true
-			}
-			if o := c.objOf(ix.X); o == nil || qual(o) != "vm.intrinsicsCallByNeed" {
-				return true
-			}
-			fo := c.objOf(ix.Index)
-			lit, _, litBody := c.funcOf(as.Rhs[0]) // a literal or a named function
+	for _, te := range c.tableEntries("vm", "intrinsicsCallByNeed") {
+		func() bool {
+			te := te
+			fo := c.objOf(te.key)
+			lit, _, litBody := c.funcOf(te.val) // a literal or a named function
 			if fo == nil || lit == nil {
 				return true
 			}
@@ -997,9 +973,9 @@ func ruleSibling3(c *Ctx) {
 				}
 			}
 			vmShape[fo.Name()] = shape
-			vmPos[fo.Name()] = as.Pos()
+			vmPos[fo.Name()] = te.pos
 			return true
-		})
+		}()
 	}
 	var names []string
 	for n := range want {
